@@ -134,7 +134,10 @@ class State:
             ctx.count("bound:le_one")
             if value > 1 + 1e-12:
                 ctx.violation("le-one", "score-above-one/" + mech, observed={"score": value, "P": P}, expected="<= 1")
-        if N >= 1 and np.all(np.abs(P - P[0]) == 0):
+        zero_diag = dist != "wasserstein" or A is None or bool(np.all(np.diag(np.asarray(A)) == 0))
+        if not zero_diag:
+            ctx.count("constant_rows_skipped_cost_with_nonzero_diagonal")   # W(p, p) > 0 for such a cost: not a distance
+        if N >= 1 and np.all(np.abs(P - P[0]) == 0) and zero_diag:
             ctx.count("bound:constant_rows")
             want = 0.5 if dist == "chi2" else 0.0
             if abs(value - want) > tol:
@@ -181,20 +184,30 @@ class State:
                 back[:, cp] = g2
                 ctx.count("rel:grad_perm")
                 self.grad_equal(gem, P, A, g0, back, orig, "cluster-permutation-gradient", "cluster-perm-grad/" + mech)
-        # empty cluster
-        Pe = np.concatenate([P, np.zeros((N, 1))], axis=1)
+        # empty cluster, inserted at a random position (first, middle or last column)
+        pos_e = int(rng.integers(0, K + 1))
+        Pe = np.insert(P, pos_e, 0.0, axis=1)
         v3, g3 = orig(gem, Pe.copy(), A, True)
         v3, g3 = _val(v3), np.asarray(g3)
         ctx.count("rel:empty_cluster")
+        if pos_e < K:
+            ctx.count("rel:empty_cluster_not_last")
         compared += 1
-        if not (abs(v3 - v0) <= tol + 1e-9):
+        if not (abs(v3 - v0) <= tol + 1e-9 * (1.0 if A is None else 0.0)):
             ctx.violation("empty-cluster", "empty-cluster-score/" + mech,
-                          observed={"score": v0, "with_empty_cluster": v3, "P": P}, expected="equal",
+                          observed={"score": v0, "with_empty_cluster": v3, "position": pos_e, "P": P}, expected="equal",
                           detail={"A": A, "tol": tol})
-        if g3.shape != Pe.shape or np.any(g3[:, -1] != 0):
+        if g3.shape != Pe.shape or np.any(g3[:, pos_e] != 0):
             ctx.violation("empty-cluster-gradient", "empty-cluster-grad/" + mech,
-                          observed={"grad_last_column": g3[:, -1] if g3.ndim == 2 else None, "P": P},
-                          expected="zeros")
+                          observed={"grad_of_empty_column": g3[:, pos_e] if g3.ndim == 2 and g3.shape[1] > pos_e else None,
+                                    "position": pos_e, "P": P}, expected="zeros")
+        # every cluster that is already empty in the observed call has zero gradient too, wherever it sits
+        empty_cols = [k for k in range(K) if np.all(P[:, k] <= gem.epsilon)]
+        if empty_cols:
+            ctx.count("rel:existing_empty_cluster")
+            if np.any(g0[:, empty_cols] != 0):
+                ctx.violation("empty-cluster-gradient", "empty-cluster-grad/" + mech,
+                              observed={"empty_columns": empty_cols, "grad": g0[:, empty_cols][:4], "P": P}, expected="zeros")
         if compared and N >= 2:
             ctx.distinct(cname, bool(gem.ovo), P.shape, P.tobytes().hex()[:64])
             ctx.sample({"class": cname, "ovo": bool(gem.ovo), "shape": [N, K], "score": v0, "relations": compared,
